@@ -366,6 +366,8 @@ class Sym:
             if float(n) == 0.5:
                 return self.sqrt()
             if float(n) != int(n):
+                if float(2 * n) == int(2 * n) and n > 0:  # x ** (k + 1/2) = x**k * sqrt(x)
+                    return (self ** int(float(n) - 0.5)) * self.sqrt()
                 raise Unsupported(f"power {n}")
             n = int(n)
         if isinstance(n, Fraction):
